@@ -5,7 +5,7 @@
 patch=$(readlink -f "$1"); shift
 wt=/tmp/ev-$$
 git -C /repo worktree add --detach -q "$wt" HEAD || exit 2
-if ! git -C "$wt" apply "$patch"; then echo "PATCH-DOES-NOT-APPLY $patch"; git -C /repo worktree remove --force "$wt"; exit 2; fi
+if ! git -C "$wt" apply "$patch" 2>/dev/null && ! git -C "$wt" apply -3 "$patch"; then echo "PATCH-DOES-NOT-APPLY $patch"; git -C /repo worktree remove --force "$wt"; exit 2; fi
 cd /verif
 for p in "$@"; do
   out=$(VERIF_REPO="$wt" ./check "$p" 2>&1)
